@@ -1,9 +1,9 @@
 /-
   C03 — input is a JSON value stream: incremental, chunking-independent, faults reported.
   * The decoder model (`Json.decodeOne`, a byte-exact port of encoding/json's Decoder.Decode,
-    differentially tested) is prefix-stable: once the bytes read so far determine a value (the
-    value and at most one following byte), no later byte and no chunking can change it
-    (`Lemmas/JsonPrefix.lean`).
+    differentially tested) is prefix-stable: once the bytes read so far determine a value, no
+    later byte and no chunking can change it (`Lemmas/JsonPrefix.lean`).  That the value's own
+    bytes and at most ONE following byte suffice is shown on examples only (no theorem).
   * The driver processes each value completely before looking at the rest of the stream, stops
     at the first fault with a JSON error naming the file without running any rule on the partial
     value, and ends a file normally ONLY when the decoder reported a clean end of input.
@@ -23,11 +23,23 @@ theorem value_determined_by_prefix (numOk : Bytes → Bool) (pre more : Bytes) (
     Json.decodeOne numOk (pre ++ more) t = .value v (rest ++ more) :=
   Json.decodeOne_prefix_value more t h
 
+/-- non-vacuity: `[1]` is a value as soon as its closing bracket is read; a number needs one
+    following byte (`12` alone could still grow) -/
+example : (match Json.decodeOne numOk b!"[1] {" .more with
+    | .value (.arr [.num n]) rest => n == b!"1" && rest == b!" {"
+    | _ => false) = true := by decide +kernel
+example : (match Json.decodeOne numOk b!"12" .more, Json.decodeOne numOk b!"12 " .more with
+    | .needMore, .value (.num n) rest => n == b!"12" && rest == b!" "
+    | _, _ => false) = true := by decide +kernel
+
 /-- likewise a fault inside the bytes read so far is a fault whatever follows -/
 theorem fault_determined_by_prefix (numOk : Bytes → Bool) (pre more : Bytes) (t : Json.Tail)
     (h : Json.decodeOne numOk pre .more = .error) :
     Json.decodeOne numOk (pre ++ more) t = .error :=
   Json.decodeOne_prefix_error more t h
+
+example : (match Json.decodeOne numOk b!"[1 }" .more with | .error => true | _ => false) = true := by
+  decide +kernel
 
 /-- how a byte stream decodes: the values in order and how it ends -/
 inductive StreamEnd | clean | fault | fuel
@@ -86,7 +98,15 @@ theorem fault_reported_no_rule (src : Bytes) (tbl : RuleTable) (sels : List Byte
   unfold processFile
   rcases h with h | h <;> simp [h]
 
-/-- a JSON error always names the file being read -/
+/-- non-vacuity: stray text and a truncated value at the end of the stream are `.error`, an
+    incomplete value with bytes still to come is `.needMore` -/
+example : (match Json.decodeOne numOk b!" ] [2]" .eof, Json.decodeOne numOk b!"[1, " .eof,
+      Json.decodeOne numOk b!"[1, " .ioerr, Json.decodeOne numOk b!"[1, " .more with
+    | .error, .error, .error, .needMore => true
+    | _, _, _, _ => false) = true := by decide +kernel
+
+/-- a JSON error names the file being read — proved here only for runs WITHOUT root selectors
+    (`sels = []`) -/
 theorem json_error_names_file (src : Bytes) (tbl : RuleTable) (sels : List Bytes) (file : InputFile)
     (hsel : sels = []) :
     ∀ (fuel : Nat) (data : Bytes) (s s' : St) (name : Bytes),
@@ -138,6 +158,11 @@ theorem clean_end (src : Bytes) (tbl : RuleTable) (sels : List Bytes) (file : In
     processFile prog src tbl sels file (fuel + 1) data s = .done s := by
   unfold processFile; simp [h]
 
+/-- non-vacuity of `clean_end` (and, through it, of the hypothesis `… = .done s'` of
+    `never_silent`): only white space left at a clean end of the stream -/
+example : (match Json.decodeOne numOk b!" \n" .eof with | .eof => true | _ => false) = true := by
+  decide +kernel
+
 /-- non-vacuity: `[1] ] [2]` — one value, then a fault (never a silent end) -/
 example : (decodeAll (fun _ => true) .eof 10 b!"[1] ] [2]").2 = .fault := by decide +kernel
 example : (decodeAll (fun _ => true) .eof 10 b!"[1] [2] ").2 = .clean := by decide +kernel
@@ -148,9 +173,11 @@ example : (decodeAll (fun _ => true) .eof 10 b!"[1] [2] ").2 = .clean := by deci
     deliver bytes, and process the whole file, from the same state:
     * if the prefix already ends the run (`exit`, a runtime error, …) the whole file ends the run
       in the very same state — no later byte is ever looked at;
-    * otherwise (the decoder wants more bytes, or found a fault) the state after the complete
-      values of the prefix is a state the whole run passes through, and everything written
-      later is appended after the prefix's output (`OutExt`).
+    * otherwise (the prefix is used up: the decoder wants more bytes, or found a fault) the
+      output of the whole file EXTENDS the output written for the complete values of the prefix
+      (`OutExt`: nothing of it is lost or reordered; only the output is compared, not the rest
+      of the state);
+    * if the evaluator runs out of fuel on the prefix, nothing is claimed (`PrefixRel`).
     No hypothesis on the program, the selectors, the bytes or the state. -/
 theorem prefix_processed_first (src : Bytes) (tbl : RuleTable) (sels : List Bytes) (name pre more : Bytes)
     (t : Json.Tail) (s : St) :
@@ -183,5 +210,7 @@ theorem prefix_values (numOk : Bytes → Bool) (more : Bytes) (t : Json.Tail) :
       exact ih rest m' (by omega) hf
 
 example : (decodeAll (fun _ => true) .more 10 b!"[1] {\"a\":2} [3").1.length = 2 := by decide +kernel
+/-- … and the hypothesis `≠ .fuel` of `prefix_values` holds there -/
+example : (decodeAll (fun _ => true) .more 10 b!"[1] {\"a\":2} [3").2 = .fault := by decide +kernel
 
 end Jqawk.C03
